@@ -655,6 +655,12 @@ func runC01(ctx *Ctx) {
 				// is this paired run in the scope of the Lean soundness theorem of the operation?
 				push(c01Pending{kind: "scope", op: s.name},
 					"judge.c01.scope "+s.name+" "+strings.Join(w[:nOps], " ")+" "+strings.Join(ww[:nOps], " "))
+			} else if s.name == "length" {
+				push(c01Pending{kind: "scope", op: s.name}, "judge.c01.scope1 length "+w[0]+" "+ww[0])
+			} else if s.name == "haselement" {
+				// C01.sound_hasElement_partial: each operand kept, or replaced as a whole by an unknown (the
+				// needle: of its own type, or DynamicVal); decided here, on the wire forms and the public API
+				push(c01Pending{kind: "scope", op: s.name, extra: c01HasElementScope(args, ws, w, ww)}, "judge.c01.scope1 none")
 			}
 			push(c01Pending{kind: "sound", op: s.name, os: args, ws: ws, ro: ro, rw: rw, po: po, pw: pw, wireKey: key},
 				verb+strings.Join(w[:nOps], " ")+" "+strings.Join(ww[:nOps], " ")+" "+outcomeWire(ro, po)+" "+outcomeWire(rw, pw))
@@ -734,9 +740,12 @@ func runC01(ctx *Ctx) {
 		p := pend[i]
 		if p.kind == "scope" {
 			scope = a
+			if p.extra != "" {
+				scope = p.extra
+			}
 			continue
 		}
-		if p.kind == "sound" && (p.op == "add" || p.op == "sub" || p.op == "mul") {
+		if p.kind == "sound" && (p.op == "add" || p.op == "sub" || p.op == "mul" || p.op == "length" || p.op == "haselement") {
 			verdict := a
 			if j := strings.IndexByte(a, ' '); j > 0 {
 				verdict = a[:j]
